@@ -16,8 +16,10 @@ CloneModes ==
      /\ (mm.late # "none" => mm.arch = "valid" /\ mm.pin # "mismatch" /\ mm.nseeds = 0 /\ ~mm.stdin_seed /\ mm.race = "none" /\ mm.out \notin {"bd_tail", "dangling"})
      \* the other party can only be scheduled deterministically while the command waits for a server: http, output absent at the start
      /\ (mm.race # "none" => mm.out = "absent" /\ mm.transport = "http" /\ mm.arch = "valid" /\ mm.pin # "mismatch" /\ mm.nseeds = 0 /\ ~mm.stdin_seed)
-     \* keep the product focused: seeds / stdin / verification / http vary only for modes that proceed or are refused late
-     /\ (mm.nseeds > 0 \/ mm.stdin_seed \/ mm.verify_out \/ mm.transport = "http") => (mm.arch = "valid" /\ mm.pin # "mismatch")}
+     \* (until batch 10 the product was "kept focused": seeds / stdin / verification / http varied only for modes that proceed. S74 lived in exactly
+     \* the part that was cut away - a refusal that depends on whether anything is left to fetch. The product is full now; in the refused modes
+     \* the runner lets the first seed (or the prior output under --seed-output) hold every chunk.)
+     /\ TRUE}
 CompressModes ==
   {mm \in [cmd : {"compress"}, out : {"absent", "regular", "dangling"}, force : BOOLEAN, inplace : {FALSE}, arch : {"valid"}, pin : {"none"}, nseeds : {0},
            stdin_seed : BOOLEAN, verify_out : {FALSE}, transport : {"local"}, empty_input : BOOLEAN, stale_tmp : {"none", "longer", "shorter"},
